@@ -414,48 +414,78 @@ func clampArg(n int) int {
 	return n
 }
 
-// argument sizes: the boundary classes of DESIGN.md section 4 / C09
-func pickSize(rnd *tr.Rand, rb *ring.Buffer) (int, string) {
+// argument sizes: the boundary classes of DESIGN.md section 4 / C09.
+// grow=false keeps most write sizes within Available() so that sequences wrap
+// around instead of growing (growth re-linearises the buffer).
+func pickSize(rnd *tr.Rand, rb *ring.Buffer, write bool) (int, string) {
 	av, cp, bu := rb.Available(), rb.Cap(), rb.Buffered()
-	c := rnd.Intn(24)
-	if c >= 22 { // absolute large sizes are rare unless the buffer is already large
-		if cp >= 4096 || rnd.Chance(12) {
-			c = 10 + rnd.Intn(2)*6 // 10 or 16
-		} else {
-			c = 17
+	if write && rnd.Chance(70) {
+		switch rnd.Intn(8) {
+		case 0:
+			return 1, "1"
+		case 1:
+			return clampArg(av - 1), "avail-1"
+		case 2, 3:
+			return clampArg(av), "avail"
+		case 4, 5:
+			return rnd.Intn(av + 1), "random<=avail"
+		case 6:
+			return rnd.Intn(av/4 + 2), "random<=avail/4"
+		default:
+			return rnd.Intn(40), "random<40"
 		}
+	}
+	if !write && rnd.Chance(50) {
+		switch rnd.Intn(8) {
+		case 0:
+			return 1, "1"
+		case 1:
+			return clampArg(bu - 1), "buffered-1"
+		case 2:
+			return clampArg(bu), "buffered"
+		case 3:
+			return clampArg(bu + 1), "buffered+1"
+		case 4, 5:
+			return rnd.Intn(bu + 1), "random<=buffered"
+		case 6:
+			return rnd.Intn(bu/4 + 2), "random<=buffered/4"
+		default:
+			return rnd.Intn(40), "random<40"
+		}
+	}
+	c := rnd.Intn(13)
+	if write && cp >= 16384 { // bound the cost of a case: no further doubling
+		c = rnd.Intn(3)
 	}
 	switch c {
 	case 0:
 		return 0, "0"
-	case 1, 2:
-		return 1, "1"
-	case 3:
-		return clampArg(av - 1), "avail-1"
-	case 4, 5:
-		return clampArg(av), "avail"
-	case 6:
+	case 1:
 		return clampArg(av + 1), "avail+1"
-	case 7:
+	case 2:
+		return clampArg(av - 1), "avail-1"
+	case 3:
 		return clampArg(cp - 1), "cap-1"
-	case 8:
+	case 4:
 		return clampArg(cp), "cap"
-	case 9:
+	case 5:
 		return clampArg(cp + 1), "cap+1"
-	case 10:
-		return 4095 + rnd.Intn(3), "4095..4097"
-	case 11:
+	case 6:
 		return 511 + rnd.Intn(3), "511..513"
-	case 12:
-		return clampArg(bu - 1), "buffered-1"
-	case 13:
-		return clampArg(bu), "buffered"
-	case 14:
-		return clampArg(bu + 1), "buffered+1"
-	case 15:
+	case 7:
+		if cp >= 2048 || rnd.Chance(25) {
+			return 4095 + rnd.Intn(3), "4095..4097"
+		}
+		return 511 + rnd.Intn(3), "511..513"
+	case 8:
 		return rnd.Intn(2*cp + 17), "random<2cap"
-	case 16:
-		return rnd.Intn(6000), "random<6000"
+	case 9:
+		if cp >= 2048 || rnd.Chance(25) {
+			return rnd.Intn(6000), "random<6000"
+		}
+		return rnd.Intn(600), "random<600"
+	case 10:
+		return clampArg(av), "avail"
 	default:
 		return rnd.Intn(40), "random<40"
 	}
@@ -470,15 +500,15 @@ func genReadScript(rnd *tr.Rand, rb *ring.Buffer) []string {
 		case c < 45: // as much as offered
 			out = append(out, "100000", "nil")
 		case c < 75: // short
-			k, _ := pickSize(rnd, rb)
+			k, _ := pickSize(rnd, rb, false)
 			out = append(out, tr.I(k), "nil")
 			w.Hist("rscript-short")
 		case c < 85: // data together with EOF
-			k, _ := pickSize(rnd, rb)
+			k, _ := pickSize(rnd, rb, false)
 			out = append(out, tr.I(k), "eof")
 			w.Hist("rscript-data+eof")
 		case c < 95: // error after partial transfer
-			k, _ := pickSize(rnd, rb)
+			k, _ := pickSize(rnd, rb, false)
 			out = append(out, tr.I(k), "err")
 			w.Hist("rscript-partial+err")
 		default:
@@ -494,7 +524,7 @@ func genWriteScript(rnd *tr.Rand, rb *ring.Buffer) []string {
 	n := rnd.Intn(4)
 	for i := 0; i < n; i++ {
 		c := rnd.Intn(100)
-		k, _ := pickSize(rnd, rb)
+		k, _ := pickSize(rnd, rb, false)
 		switch {
 		case c < 35:
 			out = append(out, "100000", "nil")
@@ -539,18 +569,18 @@ func genCase(rnd *tr.Rand, id int) {
 		if c < wbias {
 			switch rnd.Intn(10) {
 			case 0, 1, 2, 3:
-				n, cl := pickSize(rnd, m.rb)
+				n, cl := pickSize(rnd, m.rb, true)
 				w.Hist("write-" + cl)
 				op = tr.L("write", tr.X(rnd.Bytes(n)))
 			case 4, 5:
-				n, cl := pickSize(rnd, m.rb)
+				n, cl := pickSize(rnd, m.rb, true)
 				w.Hist("writestring-" + cl)
 				op = tr.L("writestring", tr.X(rnd.Bytes(n)))
 			case 6, 7:
 				w.Hist("writebyte")
 				op = tr.L("writebyte", tr.I(rnd.Intn(256)))
 			default:
-				n, cl := pickSize(rnd, m.rb)
+				n, cl := pickSize(rnd, m.rb, true)
 				w.Hist("readfrom-" + cl)
 				args := append([]string{tr.X(rnd.Bytes(n))}, genReadScript(rnd, m.rb)...)
 				op = tr.L("readfrom", args...)
@@ -558,21 +588,21 @@ func genCase(rnd *tr.Rand, id int) {
 		} else {
 			switch rnd.Intn(14) {
 			case 0, 1, 2, 3:
-				n, cl := pickSize(rnd, m.rb)
+				n, cl := pickSize(rnd, m.rb, false)
 				w.Hist("read-" + cl)
 				op = tr.L("read", tr.I(n))
 			case 4, 5:
 				w.Hist("readbyte")
 				op = tr.L("readbyte")
 			case 6, 7:
-				n, cl := pickSize(rnd, m.rb)
+				n, cl := pickSize(rnd, m.rb, false)
 				if rnd.Chance(10) {
 					n, cl = -1-rnd.Intn(3), "negative"
 				}
 				w.Hist("peek-" + cl)
 				op = tr.L("peek", tr.I(n))
 			case 8, 9:
-				n, cl := pickSize(rnd, m.rb)
+				n, cl := pickSize(rnd, m.rb, false)
 				if rnd.Chance(10) {
 					n, cl = -1-rnd.Intn(3), "negative"
 				}
